@@ -50,3 +50,44 @@ contract(
     ],
     min_obligations=8,
 )
+
+
+# ---------------------------------------------------------------------------------------------------
+# _run_mapping: which tree goes where (C17.b, C01.f) and the flatten marker union (C08.e / C17)
+#   * the tree kept for the output and for back-filling is captured before any reduction
+#     (ghost counter of drop_level / flatten calls is 0 at that statement);
+#   * every reduction happens before the marker cache is built, and the marker cache, the election
+#     and the marker serialisation all receive the same (reduced) tree object;
+#   * with flatten, the root's marker list holds every gene of every list of the table.
+# ---------------------------------------------------------------------------------------------------
+contract(
+    'cell_type_mapper.cli.from_specified_markers._run_mapping#tree',
+    properties=['C17', 'C01', 'C08'],
+    mode='slice', unexpected_exceptions='allowed',
+    tracked=['taxonomy_tree', 'tree_for_metadata', 'marker_lookup', 'all_markers', 'k'],
+    params={},
+    locals=dict(marker_lookup='Dict[Name,List[Name]]', all_markers='Set[Name]'),
+    ghost=dict(vars=dict(n_reductions='Int'),
+               count_calls={'drop_level': 'n_reductions', 'flatten': 'n_reductions'},
+               capture_calls=['create_marker_cache_from_specified_markers', 'run_type_assignment_on_h5ad',
+                              'serialize_markers'],
+               only_kinds=['assert', 'ensures', 'inv-']),
+    inline_asserts={
+        "tree_for_metadata = TaxonomyTree(": ["n_reductions == 0"],
+        "create_marker_cache_from_specified_markers(": ["ghost n_at_cache = n_reductions",
+                                                         "ghost tree_at_cache = taxonomy_tree"],
+        "result = run_type_assignment_on_h5ad(": [
+            "arg_of('run_type_assignment_on_h5ad', 'taxonomy_tree') == tree_at_cache"],
+        "marker_gene_lookup = serialize_markers(": [
+            "arg_of('serialize_markers', 'taxonomy_tree') == tree_at_cache",
+            "arg_of('create_marker_cache_from_specified_markers', 'taxonomy_tree') == tree_at_cache",
+            "n_reductions == n_at_cache"],
+        # the union built for the flattened run covers every list of the table
+        "for k in marker_lookup:": [
+            "all(implies(kk != 'log' and kk != 'metadata', all(g in all_markers for g in marker_lookup[kk])) "
+            "for kk in marker_lookup)"],
+    },
+    loops={0: ["all(implies(kk != 'log' and kk != 'metadata', all(g in all_markers for g in marker_lookup[kk])) "
+               "for kk in _seen)"]},
+    min_obligations=6,
+)
